@@ -74,6 +74,7 @@ type Opts struct {
 	AllowExport  bool
 	ControlHeavy bool // bias towards loops, branches, returns and function literals
 	DeadCode     bool // keep generating statements after return/break/continue more often
+	AlwaysErrMode bool // every program may contain deliberately ill-typed sites
 }
 
 // G is the generation context.
@@ -252,7 +253,7 @@ func Program(t *rapid.T, o Opts, inputs map[string]*lang.Val) (*lang.Program, ma
 	}
 	prog := &lang.Program{}
 	feat := map[string]int{}
-	errMode := rapid.IntRange(0, 99).Draw(t, "errMode") < 30
+	errMode := rapid.IntRange(0, 99).Draw(t, "errMode") < 30 || o.AlwaysErrMode
 	if errMode {
 		feat["error-mode"] = 1
 	}
@@ -857,12 +858,17 @@ func (g *G) forInStmt() *lang.Node {
 	}
 	body := g.block(1+g.draw(3, "forInBodyN"), false)
 	// sometimes mutate the container being iterated
-	if src != nil && (src.t == TArr || src.t == TMap) && g.chance(120, "mutIter") {
+	if src != nil && (src.t == TArr || src.t == TMap) && g.chance(200, "mutIter") {
 		g.feat("mutate-while-iterating")
 		var m *lang.Node
 		if src.t == TMap {
-			if key != "" && key != "_" && g.builtinFree("delete") && g.chance(600, "mutDel") {
-				m = lang.ExprStmt(lang.Call(lang.Ident("delete"), lang.Ident(src.name), lang.Ident(key)))
+			if g.builtinFree("delete") && g.chance(600, "mutDel") {
+				// delete another (possibly not yet visited) key, or the current one
+				var k *lang.Node = lang.Str(g.mapKey(src))
+				if key != "" && key != "_" && g.chance(300, "mutDelCur") {
+					k = lang.Ident(key)
+				}
+				m = lang.ExprStmt(lang.Call(lang.Ident("delete"), lang.Ident(src.name), k))
 			} else {
 				m = lang.Assign("=", lang.Index(lang.Ident(src.name), lang.Str("zz")), lang.Int(1))
 			}
